@@ -242,7 +242,7 @@ CHECKS['C19'] = dict(
          'single normal form fold(name with backslashes turned into slashes; the in-memory backend through its real _clean_path with os.path.normpath uninterpreted, and proved to hand back the stored entry of that key; AST shape obligations tie its constructor and both opens to the same key function) and to raise FileNotFoundError exactly when '
          'that key is absent; FileSystemChain._get_file is proved (three symbolic members with arbitrary prefixes) to '
          'return the first member, in order, that has the prefix-joined name, and add_sys to put a priority member first '
-         'in the search order (also when it is already mounted) and any other last; zip, VPK and in-memory walk_folder are proved per table entry (pre-loop statements + one arbitrary iteration) to list the entry exactly when its key lies inside the normalised folder, once. The de-duplicating loop of the chain walk is proved per file (listed iff its folded name was not listed before; the listed set grows by exactly it). Directory walks, walk_folder_repeat, byte agreement between the '
+         'in the search order (also when it is already mounted) and any other last; zip, VPK and in-memory walk_folder are proved per table entry (pre-loop statements + one arbitrary iteration) to list the entry exactly when its key lies inside the normalised folder, once. The de-duplicating loop of the chain walk is proved per file (listed iff its folded name was not listed before; the listed set grows by exactly it). walk_folder_repeat is proved to hand on every member file once under relpath(name, member prefix) (relpath uninterpreted). Directory walks, byte agreement between the '
          'in-memory / zip / VPK / directory backends, listed-name-looks-up-to-that-file and de-duplicated chain walks are '
          'a bounded differential stand-in over generated file sets - not counted as proved.',
     note='trusted: casefold uninterpreted, os.path.normpath uninterpreted (identity on the names of the property), zipfile and VPK I/O, pyvc; for names differing only in case the backends '
